@@ -19,6 +19,16 @@ CLAIMED = {
             "inside format strings), Python csv/json/html/urllib/base64 as consumers, malformed base64/percent input, character counting "
             "of length/explode/indices, regex match offsets and split reassembly. Partial: regex engine by contract; csv/tsv by oracle.",
             "7.13", "Coq proof (codecs, shell quoting) + model/implementation correspondence + independent consumers"),
+    "C14": ("Theorems: a string that the YAML writer leaves unquoted is read back as that string (must_quote vs the reader's "
+            "resolution of plain scalars, for every byte string), is one plain scalar for the scanner and cannot be taken for structure "
+            "(no break, flow indicator, blank end, key separator, comment); null/booleans/special floats resolve to themselves; CSV: every "
+            "document of rows of scalars is read back as written (reader state machine, all byte strings); TSV: every field comes back "
+            "byte for byte and is a string on the documented domain; no raw separator in a written field. Correspondence: toyaml (flow and "
+            "block style with all indentation options through --to yaml), fromyaml on plain scalars, tocsv/totsv/fromcsv/fromtsv on raw "
+            "text. Oracles: round trips of YAML/CBOR/TOML/CSV/TSV/XML on generated domains with reserved words and indicators, values just "
+            "outside the domains, Python tomllib/csv/minidom as independent readers, --to/--from with every output option. Partial: CBOR, "
+            "TOML, XML and document-level YAML by oracle (third-party tokenizers), floats in CSV come back as decimal literals.",
+            "7.14", "Coq proof (YAML scalars, CSV/TSV reader and writer) + model/implementation correspondence + round trips and independent readers"),
     "C16": ("Theorems about the loader model (Cli/Modules.v): every file is loaded at most once whatever the routes; the open stack is "
             "restored; a file importing itself is reported as circular. Tie/oracle: random acyclic module graphs on disk (diamonds, "
             "clashes, include/import mix, data imports, command-line variables) run by the binary against their textually inlined "
